@@ -737,6 +737,28 @@ theorem len_eq_labelled (cfg : Cfg R) (fs : List (RawFrame R))
     · intro ⟨i, hi, h⟩
       exact ⟨i, hi, by rw [hemp f hf i hi]; exact List.any_eq_true.mpr h⟩
 
+/-! ## 5b. A dataset that writes its chunks serves its own samples -/
+
+omit [Add R] [Sub R] [Mul R] [Div R] [LT R] [DecidableLT R] [OfNat R 0] [OfNat R 1] [OfNat R 2] [DecidableEq R] in
+/-- **chunks_written_independent_of_directory**: after `_fill_cache` wrote the chunks, reading
+index `i < len` returns this dataset's `i`-th sample whatever the directory held before (so two
+histories "fresh directory" and "directory with another dataset's files" are indistinguishable on
+the dataset's own indices); other files are untouched. -/
+theorem chunks_written_independent_of_directory {α : Type} (dir dir' : ChunkDir α) (ss : List α) (i : Nat)
+    (hi : i < ss.length) :
+    readChunk (writeChunks dir ss) i = ss[i]? ∧
+    readChunk (writeChunks dir ss) i = readChunk (writeChunks dir' ss) i ∧
+    (∀ j, ss.length ≤ j → readChunk (writeChunks dir ss) j = dir j) := by
+  have h : ss[i]? = some ss[i] := List.getElem?_eq_getElem hi
+  refine ⟨by simp [readChunk, writeChunks, h], by simp [readChunk, writeChunks, h], fun j hj => ?_⟩
+  simp [readChunk, writeChunks, List.getElem?_eq_none hj]
+
+/-- the "keep existing files" writer is not: it serves the earlier dataset's sample -/
+theorem chunks_keep_counterexample :
+    readChunk (writeChunksKeep (fun _ => some "sample of the earlier dataset") ["own sample"]) 0
+      ≠ some "own sample" := by
+  decide
+
 /-! ## 6. A labelled keypoint keeps its confidence-map peak whatever the other animals lack
 
 Over any linearly ordered `S` and any kernel (C01 owns the Gaussian: `0 < cm ≤ 1`, `= 1` iff the
